@@ -62,6 +62,19 @@ CHECKS = {
             "about that field are not compared (they depend on which spelling each loop meets first); under "
             "ignore_alias_conflicts the winning spelling is undocumented and not compared.",
             "DESIGN.md §3 C06"),
+    "C07": ("explicit-state breadth-first exploration of mutation histories on live Schema / DataClass instances with "
+            "state deduplication; the statement's invariant is evaluated after every transition",
+            "All histories up to depth 3 (quick) / 4 (thorough) over ~190 operations (setattr, item assignment, update, "
+            "setdefault, |=, delattr, del item, pop, popitem, clear, copy-then-mutate x every key spelling x valid / "
+            "convertible / invalid values) from 2 initial instances of a Schema and a DataClass with required, "
+            "defaulted+constrained, optional, immutable, aliased, no_output and property fields, under 6 class option "
+            "sets. After every transition: a raising operation left the data unchanged; every present field conforms; "
+            "required present; immutable unchanged and present; key / attribute / `in` views agree; the dependent "
+            "property is recomputed; extra keys obey the addition policy; a copy shares no state with its source.",
+            "Trusted: the per-field predicates of the invariant and the claim that dict items + __dict__ are the whole "
+            "instance state (restore-from-snapshot is cross-checked against history replay during the run). States that "
+            "violate the invariant are reported once and not expanded.",
+            "DESIGN.md §3 C07"),
     "C16": ("explicit-state exploration (DFS with state dedup) of register/resolve histories on the real "
             "TypeRegistry against a cache-free reference model",
             "All histories of register/resolve operations up to depth 4 (quick) / 5 (thorough) over a menu of "
